@@ -402,6 +402,40 @@ impl<Endpoint: Ord + Clone> BlockHandler<Endpoint> {
     }
 }
 
+#[cfg(feature = "verif_hooks")]
+impl<Endpoint: Ord + Clone> BlockHandler<Endpoint> {
+    /// Verification hook: length of the upload buffered for the key of
+    /// `request`, if any, without touching the cache's timestamps.
+    pub fn verif_upload_len(
+        &self,
+        request: &CoapRequest<Endpoint>,
+    ) -> Option<usize> {
+        self.states
+            .peek(&RequestCacheKey::from(request))
+            .and_then(|state| state.cached_request_payload.as_ref())
+            .map(|payload| payload.len())
+    }
+
+    /// Verification hook: number of unexpired cache entries and the bytes
+    /// they buffer (uploads plus cached responses).
+    pub fn verif_live_entries(&self) -> (usize, usize) {
+        let mut entries = 0;
+        let mut bytes = 0;
+        for (_, state) in self.states.peek_iter() {
+            entries += 1;
+            bytes += state
+                .cached_request_payload
+                .as_ref()
+                .map_or(0, |payload| payload.len());
+            bytes += state
+                .cached_response
+                .as_ref()
+                .map_or(0, |response| response.payload.len());
+        }
+        (entries, bytes)
+    }
+}
+
 /// Similar to [`Vec::splice`] except that the Vec's length may be extended to
 /// support the splice, but only up to an increase of `maximum_reserve_len`
 /// (for security reasons if the data you're receiving is untrusted ensure this
